@@ -8,6 +8,7 @@ package tree
 import (
 	"fmt"
 	"net/http"
+	"slices"
 	"sync"
 
 	"github.com/issue9/errwrap"
@@ -107,6 +108,10 @@ func (tree *Tree[T]) Name() string { return tree.name }
 //
 // methods 可以为空，表示采用 [AnyMethods] 中的值。
 func (tree *Tree[T]) Add(pattern string, h T, ms []types.Middleware[T], methods ...string) error {
+	if len(methods) == 0 {
+		methods = AnyMethods
+	}
+
 	if err := tree.checkAmbiguous(pattern); err != nil {
 		return err
 	}
@@ -116,7 +121,16 @@ func (tree *Tree[T]) Add(pattern string, h T, ms []types.Middleware[T], methods 
 		defer tree.locker.Unlock()
 	}
 
-	n, err := tree.getNode(pattern)
+	// 所有的验证都必须在修改节点之前完成
+	segs, err := tree.interceptors.Split(pattern)
+	if err != nil {
+		return err
+	}
+	if err := tree.checkMethods(pattern, methods); err != nil {
+		return err
+	}
+
+	n, err := tree.node.getNode(segs)
 	if err != nil {
 		return err
 	}
@@ -124,11 +138,29 @@ func (tree *Tree[T]) Add(pattern string, h T, ms []types.Middleware[T], methods 
 	if n.handlers == nil {
 		n.handlers = make(map[string]T, handlersSize)
 	}
-
-	if len(methods) == 0 {
-		methods = AnyMethods
-	}
 	return n.addMethods(h, pattern, ms, methods...)
+}
+
+// 检测 methods 是否都能添加到 pattern
+func (tree *Tree[T]) checkMethods(pattern string, methods []string) error {
+	n := tree.Find(pattern)
+	for i, m := range methods {
+		if m == http.MethodOptions || m == http.MethodHead || (tree.hasTrace && m == http.MethodTrace) {
+			return fmt.Errorf("无法手动添加 OPTIONS/HEAD/TRACE 请求方法")
+		}
+		if _, found := methodIndexMap[m]; !found {
+			return fmt.Errorf("该请求方法 %s 不被支持", m)
+		}
+		if slices.Index(methods[:i], m) >= 0 {
+			return fmt.Errorf("该请求方法 %s 已经存在", m)
+		}
+		if n != nil {
+			if _, found := n.handlers[m]; found {
+				return fmt.Errorf("该请求方法 %s 已经存在", m)
+			}
+		}
+	}
+	return nil
 }
 
 func (tree *Tree[T]) checkAmbiguous(pattern string) error {
